@@ -169,12 +169,23 @@ pub fn grid(scripts: &[(Vec<(usize, crate::world::Step)>, usize)], caps: &[usize
 /// tiny (8 bytes): the agent's writes are held back, so it consumes several requests while a lane
 /// is still dirty (sync served with a pending change, events coalesced inside the lane).
 pub fn with_small_lane_buf(cfgs: &[Cfg]) -> Vec<Cfg> {
-    cfgs.iter()
-        .filter(|c| c.cap == 4096 && c.credit == 0)
-        .map(|c| {
-            let mut c = c.clone();
-            c.lane_buf = 8;
-            c
-        })
-        .collect()
+    // the copies with the small lane channel also vary the runtime's RNG seed (start branch of the
+    // unbiased select!s): seeds 0 and 1 in a fixed alternating pattern in the quick tier, both for
+    // every configuration in the thorough tier
+    let thorough = std::env::var("VERIF_TIER").as_deref() == Ok("thorough");
+    let mut out = vec![];
+    for (i, c) in cfgs.iter().filter(|c| c.cap == 4096 && c.credit == 0).enumerate() {
+        let mut c = c.clone();
+        c.lane_buf = 8;
+        if thorough {
+            let mut c1 = c.clone();
+            c1.seed = 1;
+            out.push(c.clone());
+            out.push(c1);
+        } else {
+            c.seed = (i % 2) as u64;
+            out.push(c);
+        }
+    }
+    out
 }
